@@ -170,6 +170,7 @@ func runC04(c *Ctx) {
 	r.Floor("literal-compare", ncmp, 25, "comparisons of token text with words")
 	c04Tables(c, p)
 	c04Layout(c)
+	c04Munch(c)
 }
 
 func c04Tables(c *Ctx, p *core.Prog) {
@@ -257,7 +258,7 @@ func c04Tables(c *Ctx, p *core.Prog) {
 		}
 	}
 	r.Extra("keyword_tables", len(tables))
-	r.Floor("table-key", n, 3, "keyword table lookups")
+	r.Floor("table-key", n, 1, "keyword table lookups")
 }
 
 var c04Prog *core.Prog
